@@ -372,6 +372,8 @@ def handleUnsched : Handler := fun i o => do
     | "scheduled" => ["InProgress", "Current"]
     | "deleted" => ["InProgress", "NotFound"]
     | "touched" => ["InProgress", "InProgress", "Failed"]   -- the update re-arms the one pending re-check
+    | "deadline" => ["InProgress"]       -- the watch ends inside the window: the pending re-check dies with it
+    | "cancel-early" => ["InProgress"]
     | "ns-deleted" => ["InProgress"]     -- the namespace's informers are stopped; the pod's pending re-check dies with them
     | _ => ["InProgress", "Failed"]
   let nsDel := thenS == "ns-deleted"
